@@ -35,8 +35,9 @@ def is_any(v, alts):
 
 
 def contracts(chk, repo, clause_b, clause_d, clause_e, clause_i, clause_conserve=None):
-    for cfg, label in configs():
-        fl = DftFlow(repo, cfg, label)
+    for cfg, label0 in configs():
+      for fl in DftFlow.all(repo, cfg, label0):
+        label = fl.label
         f = fl.f
         osf = S('oversample')
         du = pair('pixelscale')
